@@ -207,12 +207,14 @@ example : mapKeys (canon MONO) [(str% "Fucose", Num.ofInt 1), (str% "S", Num.ofI
 
 /-! ## 2. write → parse round trip (sep = '') -/
 
-/-- the tokenizer on a written dict: every item is read back as written and *assigned* (`foldSet`), whenever the
-written form is unambiguous (`Unambig`, a decidable predicate) in a longest-first vocabulary without empty names -/
+/-- the tokenizer on a written token list (repeated names allowed): every item is read back as written and *added* to
+the dict (`addAll`, the same merge as for chemical formulas; since fix 4cd4abe — before, a repeated name was
+overwritten), whenever the written form is unambiguous (`Unambig`, a decidable predicate) in a longest-first
+vocabulary without empty names -/
 theorem glycan_parse_write_fold (names : List Str) (g d : Comp)
     (hne : ∀ nm ∈ names, nm ≠ []) (hs : names.Pairwise (fun a b => b.length ≤ a.length))
     (hu : Unambig names g = true) (hv : ∀ kv ∈ g, NumOK kv.2) :
-    parseGlycanAux names 0 (writeGlycan g []) d = .ok (foldSet d g) :=
+    parseGlycanAux names 0 (writeGlycan g []) d = .ok (addAll d g) :=
   parseGlycanAux_write names hne hs g d hu hv
 
 /-- round trip: with pairwise different keys the parsed dict is the written one -/
@@ -220,8 +222,7 @@ theorem glycan_parse_write (names : List Str) (g : Comp)
     (hne : ∀ nm ∈ names, nm ≠ []) (hs : names.Pairwise (fun a b => b.length ≤ a.length))
     (hu : Unambig names g = true) (hv : ∀ kv ∈ g, NumOK kv.2) (hk : (g.map (·.1)).Nodup) :
     parseGlycanAux names 0 (writeGlycan g []) [] = .ok g := by
-  rw [parseGlycanAux_write names hne hs g [] hu hv, foldSet_distinct g [] (by simpa [gkeys] using hk)]
-  rfl
+  rw [parseGlycanAux_write names hne hs g [] hu hv, addAll_nil_distinct g (by simpa [gkeys] using hk)]
 
 /-- the same through `parse_glycan_formula` for the generated table, counts being Python ints or finite decimals -/
 theorem glycan_parse_write_gen (g : Comp) (hu : Unambig (namesSorted MONO) g = true)
@@ -264,9 +265,10 @@ theorem glycan_parse_write_ambiguous_counterexample :
       .ok [(str% "Neu5Ac", Num.ofInt 1)] := by
   decide +kernel
 
-/-- a repeated key is assigned, not accumulated: `Hex2Fuc1Hex3` reads as `{Hex: 3, Fuc: 1}` -/
-theorem glycan_parse_repeated_key_assigns :
-    parseGlycan MONO (str% "Hex2Fuc1Hex3") [] = .ok [(str% "Hex", Num.ofInt 3), (str% "Fuc", Num.ofInt 1)] := by
+/-- a repeated name is accumulated: `Hex2Fuc1Hex3` reads as `{Hex: 5, Fuc: 1}` (fix 4cd4abe; before the fix the
+second `Hex` overwrote the first) -/
+theorem glycan_parse_repeated_key_accumulates :
+    parseGlycan MONO (str% "Hex2Fuc1Hex3") [] = .ok [(str% "Hex", Num.ofInt 5), (str% "Fuc", Num.ofInt 1)] := by
   decide +kernel
 
 /-- composition and mass of the written text are those of the dict it was written from -/
@@ -367,7 +369,7 @@ example : neu5ac [(str% "Hex", Num.ofInt 1), (str% "Neu", Num.ofInt 5), (str% "A
 /-! ## the separated form (`sep` = one character that is not part of a number) -/
 
 /-- with a separator the text is split at every separator and read as name, count, name, count, …; the vocabulary is
-not consulted and a repeated key is *accumulated* (`foldSep`), unlike in the unseparated form -/
+not consulted; a repeated key is accumulated (`foldSep`, equal to `addAll`: `glycan_sep_same_dict`) -/
 theorem glycan_parse_write_sep_fold (mono : List Entry) (c : Nat) (g : Comp)
     (hc : (isDigit c || c == 45 || c == 46) = false) (hk : ∀ kv ∈ g, c ∉ kv.1) (hv : ∀ kv ∈ g, NumOK kv.2) :
     parseGlycan mono (writeGlycan g [c]) [c] = .ok (foldSep [] g) := by
@@ -380,7 +382,7 @@ theorem glycan_parse_write_sep_fold (mono : List Entry) (c : Nat) (g : Comp)
     have hsep : ([c] != ([] : Str)) = true := by simp
     rw [hne]
     simp only [Bool.false_eq_true, if_false, hsep, if_true]
-    rw [splitOn_write c (kv :: r) (by simp), splitFold_tokens (kv :: r) [] hv]
+    rw [gly_splitOn_write c (kv :: r) (by simp), splitFold_tokens (kv :: r) [] hv]
     intro kv' hkv'
     refine ⟨hk kv' hkv', ?_⟩
     intro hmem
@@ -399,8 +401,7 @@ theorem glycan_parse_write_sep (mono : List Entry) (c : Nat) (g : Comp)
 example : writeGlycan [(str% "HexNAc", Num.ofInt 2), (str% "Neu", Num.ofInt 5), (str% "Ac", ⟨1/2, true⟩)] [32] =
     str% "HexNAc 2 Neu 5 Ac 0.5" := by decide +kernel
 
-/-- a repeated key is accumulated in the separated form (and assigned in the unseparated one, see
-`glycan_parse_repeated_key_assigns`) -/
+/-- a repeated key is accumulated in the separated form as well -/
 theorem glycan_parse_sep_repeated_key_accumulates :
     parseGlycan MONO (str% "Hex 2 Fuc 1 Hex 3") [32] = .ok [(str% "Hex", Num.ofInt 5), (str% "Fuc", Num.ofInt 1)] := by
   decide +kernel
